@@ -331,6 +331,12 @@ def r6(ctx):
     if (evt, True) in fs:
       ctx.ob('C01.R6', h, 'the timeout event is set before the timeout is posted', len(sets) == 1 and ups and sets[0] < ups[0][0] and U(ev[sets[0]].node.args[0]) == 'True',
              'event set at %s, posted at %s' % (sets, [u[0] for u in ups]), 'parked hops must see the event by the time the caller has its TimeoutError')
+  set_paths = 0
+  for ev, ex in enum_paths(ctx, h):
+    if any(e.kind == 'call' and U(e.node.func) == evt + '.Set' and [U(a) for a in e.node.args] == ['True'] for e in ev):
+      set_paths += 1
+  ctx.ob('C01.R6', h, 'the timer path sets the timeout event to True', set_paths >= 1, 'no path of the timeout helper sets the event',
+         'hops that parked the request (balancer open gate, mux send queue) read this event to learn that the caller already has its TimeoutError')
   r = prog.func(S, 'ClientTimeoutSink.AsyncProcessResponse')
   for ev, ex in enum_paths(ctx, r):
     cc = [i for i, e in enumerate(ev) if e.kind == 'call' and isinstance(e.node.func, ast.Name) and e.node.func.id == r.params[2]]
